@@ -1069,6 +1069,9 @@ func addFaults(r *core.RNG, sc *cliScenario, x *cliExec) *cliScenario {
 				b = 0
 			}
 			rs.SinkLimit = &b
+			// a full disk behind a redirection, a failing device, or a reader
+			// that went away (gts ... | head)
+			rs.SinkErr = []string{"", "", "epipe", "epipe", "eio"}[r.Intn(5)]
 		}
 	}
 	// after the faulted step, make sure an identical fault-free invocation follows
